@@ -43,6 +43,13 @@ for sid in ids:
         print(sid, "PATCH DOES NOT APPLY:", r.stdout[-200:].replace("\n", " ")); results[sid] = {"applies": False}; continue
     try:
         row = {"applies": True, "tier": tier, "runs": []}
+        # the seeder's own demonstration must still fail on the tree the patch produced (3-way application on a tree
+        # with later fix: commits can silently turn a change into a harmless one)
+        dm = sh("EUPS_SHELL=sh EUPS_FLAVOR=Linux /venv/bin/python -X pycache_prefix=%s/.work/pyc-demo %s %s"
+                % (HERE, os.path.join(d, "demo.py"), REPO), timeout=900)
+        row["demo_exit_patched"] = dm.returncode
+        if dm.returncode != 1:
+            print(sid, "WARNING: demo exit %d on the patched tree (expected 1): the applied change may have become harmless" % dm.returncode)
         for pid in props:
             for seed in seeds:
                 t0 = time.time()
